@@ -601,23 +601,27 @@ func (m *tableMachine) checkC05(s dht.VerifTableSnapshot, what string) {
 			m.report("C05:addr-index-mismatch", "%s: entries at %s are missing from the address index", what, a)
 		}
 	}
-	// API agreement
+	// API agreement. The readings are taken one after the other; they are compared with the snapshot only
+	// if the table is still the same afterwards (otherwise something was still moving: no verdict).
+	type apiV struct{ key, msg string }
+	var api []apiV
+	add := func(key, format string, a ...any) { api = append(api, apiV{key, fmt.Sprintf(format, a...)}) }
 	if n := m.sv.S.NumNodes(); n != len(s.Entries) {
-		m.report("C05:numnodes-disagrees", "%s: NumNodes() = %d, the table holds %d entries", what, n, len(s.Entries))
+		add("C05:numnodes-disagrees", "%s: NumNodes() = %d, the table holds %d entries", what, n, len(s.Entries))
 	}
 	st := m.sv.S.Stats()
 	if st.Nodes != len(s.Entries) {
-		m.report("C05:stats-nodes-disagrees", "%s: Stats().Nodes = %d, the table holds %d entries", what, st.Nodes, len(s.Entries))
+		add("C05:stats-nodes-disagrees", "%s: Stats().Nodes = %d, the table holds %d entries", what, st.Nodes, len(s.Entries))
 	}
 	if st.GoodNodes != nGood {
-		m.report("C05:stats-good-disagrees", "%s: Stats().GoodNodes = %d, %d entries are good by the BEP 5 rule", what, st.GoodNodes, nGood)
+		add("C05:stats-good-disagrees", "%s: Stats().GoodNodes = %d, %d entries are good by the BEP 5 rule", what, st.GoodNodes, nGood)
 	}
 	got := map[string]int{}
 	for _, ni := range m.sv.S.Nodes() {
 		got[fmt.Sprintf("%x@%s", ni.ID[:], ni.Addr.String())]++
 	}
 	if !sameCounts(got, notBad) {
-		m.report("C05:nodes-list-disagrees", "%s: Nodes() returned %d contacts %v; the non-bad entries are %d: %v", what, len(got), sortedStrings(got), len(notBad), sortedStrings(notBad))
+		add("C05:nodes-list-disagrees", "%s: Nodes() returned %d contacts %v; the non-bad entries are %d: %v", what, len(got), sortedStrings(got), len(notBad), sortedStrings(notBad))
 	}
 	var buf bytes.Buffer
 	m.sv.S.WriteStatus(&buf)
@@ -625,10 +629,32 @@ func (m *tableMachine) checkC05(s dht.VerifTableSnapshot, what string) {
 	for _, line := range strings.Split(buf.String(), "\n") {
 		if n, _ := fmt.Sscanf(line, "Nodes in table: %d good, %d total", &g, &tot); n == 2 {
 			if g != nGood || tot != len(s.Entries) {
-				m.report("C05:status-disagrees", "%s: WriteStatus says %d good, %d total; the table has %d good, %d total", what, g, tot, nGood, len(s.Entries))
+				add("C05:status-disagrees", "%s: WriteStatus says %d good, %d total; the table has %d good, %d total", what, g, tot, nGood, len(s.Entries))
 			}
 		}
 	}
+	if len(api) > 0 {
+		if again := m.sv.S.VerifTable(); !sameTable(s, again) {
+			m.c.Label("table-moved-during-api-readings")
+			return
+		}
+		for _, v := range api {
+			m.report(v.key, "%s", v.msg)
+		}
+	}
+}
+
+func sameTable(a, b dht.VerifTableSnapshot) bool {
+	if len(a.Entries) != len(b.Entries) {
+		return false
+	}
+	for i := range a.Entries {
+		x, y := a.Entries[i], b.Entries[i]
+		if x.ID != y.ID || x.Addr != y.Addr || x.Bucket != y.Bucket || !x.LastGotQuery.Equal(y.LastGotQuery) || !x.LastGotResponse.Equal(y.LastGotResponse) || x.FailedLastQuestionablePing != y.FailedLastQuestionablePing {
+			return false
+		}
+	}
+	return true
 }
 
 func sinceOrNever(t, now time.Time) string {
@@ -746,6 +772,15 @@ func (m *tableMachine) checkC06(pre, post dht.VerifTableSnapshot, evs []tev, op 
 				if had {
 					m.report("C06:entry-lost", "%s: entry %x@%s was present and vanished on a message from itself", what, k.id[:], k.addr)
 				} else if count < 8 || room {
+					// negative evidence: look again after a moment before believing it
+					time.Sleep(20 * time.Millisecond)
+					if err := m.sv.C.Quiesce(barrierTimeout); err == nil {
+						if _, late := indexEntries(m.sv.S.VerifTable())[k]; late {
+							m.c.Label("late-admission-after-barrier")
+							m.c.Inconclusive = "an admission became visible only after the barrier had settled"
+							return
+						}
+					}
 					m.report("C06:eligible-sender-not-admitted", "%s: %s from %s with ID %x is eligible and bucket %d had room (%d entries, displaceable=%v) but it was not admitted", what, ev.kind, ev.addr, ev.id[:], b, count, room)
 				}
 			} else if m.eligible(ev) && !had && has {
